@@ -1,7 +1,9 @@
 """C11 — jacobian monomial and invariance of the rescaling (kernel engine)."""
-from .kernels import run_c11_jacobian, run_rescaling
+from .kernels import run_c11_jacobian, run_rescaling, iteration_clauses
 
 
 def run(ctx):
     run_c11_jacobian(ctx)
     run_rescaling(ctx, "C11")
+    # the U_tr / V_tr that the rescaling normalises must be maintained in every iteration (otherwise the gauge is not the tropical one)
+    iteration_clauses(ctx, "C11-d", "C11-d", False)
